@@ -1106,55 +1106,150 @@ theorem nonce_once_interleaved (n : Nat) (ops : List VOp) (w : World) (rqs : Lis
 example : cnt (passedWith 7) (vRun exWorld [⟨exReq, .pre⟩, ⟨{ exReq with target := 51 }, .pre⟩]
     [.move 0, .move 1, .move 1, .move 0, .issue 9, .move 0, .move 1]).2 = 1 := by decide
 
-/-! ## overlapping account updates: a deactivation can be undone (reproduced by stage `acctrace`) -/
+/-! ## overlapping account updates: a stored deactivation is final (stage `acctrace`) -/
 
 def reqDeact : UpdThread := ⟨.deactivate, .start⟩
 def reqContact : UpdThread := ⟨.contact, .start⟩
 
-/-- the clause under concurrency: whatever the interleaving of a deactivation and a contact update
-    of one account, once the deactivation has been served the stored account is not valid -/
-def DeactivationSticks : Prop :=
-  ∀ sched : List Bool,
-    (updRun .valid reqDeact reqContact sched).2.1.pc = .done true →
-      (updRun .valid reqDeact reqContact sched).1 ≠ .valid
+/-- one step of any request, in any state of that request, leaves a deactivated account deactivated -/
+theorem updStep_sticks (t : UpdThread) : (updStep .deactivated t).1 = .deactivated := by
+  obtain ⟨k, pc⟩ := t
+  cases pc with
+  | start => simp [updStep]
+  | done b => simp [updStep]
+  | loaded seen =>
+    cases k with
+    | deactivate => simp [updStep]
+    | contact =>
+      simp only [updStep]
+      cases seen <;> simp
 
-/-- **deactivation_sticks_refuted.** False as coded: load_A load_B update_A update_B — the contact
-    update writes back the `valid` it loaded before the deactivation was stored. -/
-theorem deactivation_sticks_refuted : ¬ DeactivationSticks := by
-  intro h
-  have := h [false, true, false, true]
-  revert this
-  decide
+/-- **deactivation_sticks.** Any number of update requests of one account (deactivations, contact
+    updates, in whatever state each of them is — including holding a copy loaded while the account was
+    still valid), interleaved in any way: once the stored status is `deactivated` it is `deactivated`
+    in every later state. -/
+theorem deactivation_sticks (ts : List UpdThread) (sched : List Nat) :
+    (updRunN .deactivated ts sched).1 = .deactivated := by
+  induction sched generalizing ts with
+  | nil => rfl
+  | cons i rest ih =>
+    simp only [updRunN]
+    cases hi : ts[i]? with
+    | none => exact ih ts
+    | some t => simp only []; rw [updStep_sticks t]; exact ih _
 
-/-- **account_update_interleavings** (table, `decide`): of the 6 interleavings of the two
-    two-step requests exactly ABAB and BAAB end with a valid account after a served deactivation. -/
+theorem updRunN_append (st : Status) (ts : List UpdThread) (s1 s2 : List Nat) :
+    updRunN st ts (s1 ++ s2) = updRunN (updRunN st ts s1).1 (updRunN st ts s1).2 s2 := by
+  induction s1 generalizing st ts with
+  | nil => rfl
+  | cons i rest ih =>
+    simp only [List.cons_append, updRunN]
+    cases hi : ts[i]? with
+    | none => exact ih st ts
+    | some t => exact ih _ _
+
+/-- … from whatever state and at whatever point of the schedule the deactivation was stored -/
+theorem deactivation_sticks_later (st : Status) (ts : List UpdThread) (s1 s2 : List Nat)
+    (h : (updRunN st ts s1).1 = .deactivated) : (updRunN st ts (s1 ++ s2)).1 = .deactivated := by
+  rw [updRunN_append, h]; exact deactivation_sticks _ _
+
+theorem mem_setNth {α : Type} {l : List α} {i : Nat} {a x : α} (h : x ∈ setNth l i a) : x = a ∨ x ∈ l := by
+  induction l generalizing i with
+  | nil => simp [setNth] at h
+  | cons y ys ih =>
+    cases i with
+    | zero =>
+      simp only [setNth, List.mem_cons] at h
+      rcases h with h | h
+      · exact .inl h
+      · exact .inr (List.mem_cons_of_mem _ h)
+    | succ i =>
+      simp only [setNth, List.mem_cons] at h
+      rcases h with h | h
+      · exact .inr (by rw [h]; exact List.mem_cons_self)
+      · rcases ih h with h' | h'
+        · exact .inl h'
+        · exact .inr (List.mem_cons_of_mem _ h')
+
+/-- a deactivation request has been answered 200 -/
+def ServedDeact (ts : List UpdThread) : Prop := ∃ t ∈ ts, t.kind = .deactivate ∧ t.pc = .done true
+
+theorem updStep_served {st : Status} {t : UpdThread}
+    (h : (updStep st t).2.kind = .deactivate ∧ (updStep st t).2.pc = .done true) :
+    (t.kind = .deactivate ∧ t.pc = .done true) ∨ (updStep st t).1 = .deactivated := by
+  obtain ⟨k, pc⟩ := t
+  cases pc with
+  | start => simp only [updStep] at h; split at h <;> simp at h
+  | done b => simp only [updStep] at h; exact .inl h
+  | loaded seen =>
+    cases k with
+    | deactivate => right; simp [updStep]
+    | contact => simp only [updStep] at h; split at h <;> simp at h
+
+/-- **deactivation_served_sticks.** Any number of update requests, all starting from scratch,
+    interleaved in any way: in every reachable state in which some deactivation has been answered
+    200, the stored account is deactivated (so by `deactivated_nothing` every later request of the
+    account is refused). -/
+theorem deactivation_served_sticks (st : Status) (ts : List UpdThread) (sched : List Nat)
+    (hinv : ServedDeact ts → st = .deactivated) :
+    ServedDeact (updRunN st ts sched).2 → (updRunN st ts sched).1 = .deactivated := by
+  induction sched generalizing st ts with
+  | nil => exact hinv
+  | cons i rest ih =>
+    simp only [updRunN]
+    cases hi : ts[i]? with
+    | none => exact ih st ts hinv
+    | some t =>
+      simp only []
+      apply ih
+      intro ⟨x, hx, hk, hp⟩
+      rcases mem_setNth hx with rfl | hx'
+      · rcases updStep_served ⟨hk, hp⟩ with ⟨h1, h2⟩ | h
+        · have := hinv ⟨t, List.mem_of_getElem? hi, h1, h2⟩
+          rw [this]; exact updStep_sticks t
+        · exact h
+      · have := hinv ⟨x, hx', hk, hp⟩
+        rw [this]; exact updStep_sticks t
+
+/-- the same from the natural start: a valid account, every request at its beginning -/
+theorem deactivation_served_sticks_init (kinds : List UpdKind) (sched : List Nat) :
+    ServedDeact (updRunN .valid (kinds.map (⟨·, .start⟩)) sched).2 →
+      (updRunN .valid (kinds.map (⟨·, .start⟩)) sched).1 = .deactivated := by
+  apply deactivation_served_sticks
+  intro ⟨t, ht, _, hp⟩
+  simp only [List.mem_map] at ht
+  obtain ⟨k, _, rfl⟩ := ht
+  cases hp
+
+/-- **account_update_interleavings** (table, `decide`; what stage `acctrace` demands of the real
+    handlers): the 6 interleavings AABB ABAB ABBA BAAB BABA BBAA of a deactivation A and a contact
+    update B (two store steps each) — stored status, A served, B served. In ABAB and BAAB the contact
+    update loaded the account before the deactivation was stored and is refused by `UpdateAccount`. -/
 theorem account_update_interleavings :
     [[false, false, true, true], [false, true, false, true], [false, true, true, false],
      [true, false, false, true], [true, false, true, false], [true, true, false, false]].map
-      (fun s => (updRun .valid reqDeact reqContact s).1)
-    = [.deactivated, .valid, .deactivated, .valid, .deactivated, .deactivated] := by decide
+      (fun s => let r := updRun .valid reqDeact reqContact s; (r.1, r.2.1.pc, r.2.2.pc))
+    = [(.deactivated, .done true, .done false), (.deactivated, .done true, .done false),
+       (.deactivated, .done true, .done true), (.deactivated, .done true, .done false),
+       (.deactivated, .done true, .done true), (.deactivated, .done true, .done true)] := by decide
 
-theorem updRun_after_deact (b : UpdThread) (hb : b.pc = .start ∨ b.pc = .done false) (k : UpdKind) (sched : List Bool) :
-    (updRun .deactivated ⟨k, .done true⟩ b sched).1 = .deactivated := by
-  induction sched generalizing b with
-  | nil => rfl
-  | cons x xs ih =>
-    cases x with
-    | false => simp only [updRun, updStep]; exact ih b hb
-    | true =>
-      simp only [updRun]
-      rcases hb with hb | hb
-      · have : updStep .deactivated b = (.deactivated, { b with pc := .done false }) := by
-          simp [updStep, hb]
-        rw [this]; exact ih _ (.inr rfl)
-      · have : updStep .deactivated b = (.deactivated, b) := by simp [updStep, hb]
-        rw [this]; exact ih _ (.inr hb)
+-- three requests: two contact updates racing one deactivation, fully interleaved
+example : (updRunN .valid [reqContact, reqDeact, reqContact] [0, 1, 2, 1, 0, 2]).1 = .deactivated := by decide
 
-/-- **deactivation_sticks_partial.** If the deactivation has taken both its steps before the other
-    request starts, the account stays deactivated whatever follows. -/
-theorem deactivation_sticks_partial (rest : List Bool) :
-    (updRun .valid reqDeact reqContact (false :: false :: rest)).1 = .deactivated := by
-  simp only [updRun, updStep, reqDeact, reqContact]
-  exact updRun_after_deact _ (.inl rfl) _ rest
+/-- historic (before commit 48b7457): `UpdateAccount` copied the status of the handler's stale copy
+    without looking at the stored one; load_A load_B update_A update_B left the account valid -/
+def updStepBeforeFix (st : Status) (t : UpdThread) : Status × UpdThread :=
+  match t.pc with
+  | .loaded seen => match t.kind with
+    | .deactivate => (.deactivated, { t with pc := .done true })
+    | .contact => (seen, { t with pc := .done true })
+  | _ => updStep st t
+
+example :
+    let s1 := updStepBeforeFix .valid reqDeact       -- load_A
+    let s2 := updStepBeforeFix s1.1 reqContact        -- load_B
+    let s3 := updStepBeforeFix s2.1 s1.2              -- update_A
+    let s4 := updStepBeforeFix s3.1 s2.2              -- update_B
+    (s3.1, s4.1) = (.deactivated, .valid) := by decide
 
 end Verif.AcmeAuth
